@@ -616,7 +616,10 @@ class FromKafkaBatched(Source):
             # connection with broker to fetch oauth token for kafka
             self.consumer.poll(timeout=1)
             self.consumer.get_watermark_offsets(tp)
-            self.loop.add_callback(self.poll_kafka)
+            self.loop.add_callback(self._run_exclusive)
+
+    def run(self):
+        return self.poll_kafka()
 
 
 @Stream.register_api(staticmethod)
